@@ -53,12 +53,32 @@ var c27SelTimes = []time.Time{
 
 const c27SelHost = "c27-host"
 
+// Special values of c27SelRes.Selector.
+const (
+	c27SelNone    = "<no nodeSelector field>"
+	c27SelEmpty   = "<empty nodeSelector>"
+	c27SelInvalid = "rack == " // does not parse
+)
+
+// scoped: the resource has a usable nodeSelector (start-up listing and runtime cache both skip
+// resources without one or with one that does not parse).
+func (r c27SelRes) scoped() bool {
+	return r.Selector != c27SelNone && r.Selector != c27SelEmpty && r.Selector != c27SelInvalid
+}
+
 func (r c27SelRes) resource() *apiv3.FelixConfiguration {
 	fc := apiv3.NewFelixConfiguration()
 	fc.Name = r.Name
 	fc.CreationTimestamp = metav1.Time{Time: c27SelTimes[r.Created]}
-	sel := r.Selector
-	fc.Spec.NodeSelector = &sel
+	switch r.Selector {
+	case c27SelNone: // field absent
+	case c27SelEmpty:
+		empty := ""
+		fc.Spec.NodeSelector = &empty
+	default:
+		sel := r.Selector
+		fc.Spec.NodeSelector = &sel
+	}
 	if r.Refresh > 0 {
 		fc.Spec.IptablesRefreshInterval = &metav1.Duration{Duration: time.Duration(r.Refresh) * time.Second}
 	}
@@ -92,10 +112,23 @@ func c27SelDelete(name string) api.Update {
 	return api.Update{KVPair: model.KVPair{Key: model.ResourceKey{Kind: apiv3.KindFelixConfiguration, Name: name}}, UpdateType: api.UpdateTypeKVDeleted}
 }
 
-// c27SelBatcher runs a real ConfigBatcher over the resources in the given order and returns the
-// per-selector source it last emitted.  early: resources delivered before the in-sync status;
-// late: delivered (or deleted, when Selector == "") afterwards.
-func c27SelBatcher(t *rapid.T, labels map[string]string, early, late []c27SelRes) map[string]string {
+// c27SelOp: one syncer update for a FelixConfiguration resource.
+type c27SelOp struct {
+	Res    c27SelRes
+	Delete bool
+}
+
+func c27SelOps(rs []c27SelRes) []c27SelOp {
+	var out []c27SelOp
+	for _, r := range rs {
+		out = append(out, c27SelOp{Res: r})
+	}
+	return out
+}
+
+// c27SelBatcher runs a real ConfigBatcher over the updates in the given order and returns the
+// per-selector source it last emitted.  early: delivered before the in-sync status; late: after.
+func c27SelBatcher(t *rapid.T, labels map[string]string, early, late []c27SelOp) map[string]string {
 	sink := &c27SelSink{}
 	cb := calc.NewConfigBatcher(c27SelHost, sink)
 	cb.OnUpdate(api.Update{KVPair: model.KVPair{Key: model.ReadyFlagKey{}, Value: true}})
@@ -103,17 +136,18 @@ func c27SelBatcher(t *rapid.T, labels map[string]string, early, late []c27SelRes
 		Key:   model.ResourceKey{Kind: internalapi.KindNode, Name: c27SelHost},
 		Value: &internalapi.Node{ObjectMeta: metav1.ObjectMeta{Name: c27SelHost, Labels: labels}},
 	}})
-	for _, r := range early {
-		cb.OnUpdate(c27SelUpdate(r))
-	}
-	cb.OnDatamodelStatus(api.InSync)
-	for _, r := range late {
-		if r.Selector == "" {
-			cb.OnUpdate(c27SelDelete(r.Name))
-		} else {
-			cb.OnUpdate(c27SelUpdate(r))
+	deliver := func(ops []c27SelOp) {
+		for _, o := range ops {
+			if o.Delete {
+				cb.OnUpdate(c27SelDelete(o.Res.Name))
+			} else {
+				cb.OnUpdate(c27SelUpdate(o.Res))
+			}
 		}
 	}
+	deliver(early)
+	cb.OnDatamodelStatus(api.InSync)
+	deliver(late)
 	if len(sink.sel) == 0 {
 		t.Fatalf("HARNESS-GAP: ConfigBatcher emitted no config update after in-sync")
 	}
@@ -149,7 +183,7 @@ func c27SelShow(m map[string]string) string {
 func TestVerifC27SelectorSource(t *testing.T) {
 	ev.Quiet()
 	rec := ev.New("C27", "selector-source",
-		"1-5 selector-scoped FelixConfigurations (selectors over two node labels, creation timestamps from four values incl. zero so ties are common, 0-3 config fields each) and node labels; presented in two orders to MergeSelectorConfigs and to a real ConfigBatcher (three runs, one of them learning incrementally after in-sync with a delete and re-add); non-trivial = >=2 resources match the node, the oldest timestamp is shared by >=2 of them and their configs differ; distinct = (labels, per-resource selector/timestamp/config)",
+		"1-5 selector-scoped FelixConfigurations (selectors over two node labels, creation timestamps from four values incl. zero so ties are common, 0-3 config fields each) and node labels; presented in two orders to MergeSelectorConfigs and to a real ConfigBatcher (three runs, one of them a running batcher that watches earlier versions of the resources — other/no/empty/unparsable nodeSelector, other values, deletions — before their final versions, before and after in-sync); non-trivial = the oldest matching timestamp is shared by >=2 resources with different configs, or a resource's selector is changed, removed or broken by an update; distinct = (labels, per-resource selector/timestamp/config)",
 		"selector-scoped resources are those with a nodeSelector; names are distinct",
 		"nothing is asserted about which matching resource wins, only that the choice depends on the set alone")
 	defer rec.Write()
@@ -168,7 +202,7 @@ func TestVerifC27SelectorSource(t *testing.T) {
 		for _, name := range names {
 			r := c27SelRes{
 				Name:     name,
-				Selector: rapid.SampledFrom([]string{"all()", "all()", "rack == 'r1'", "rack in {'r1', 'r2'}", "has(gpu)", "!has(gpu)", "rack == 'r2'"}).Draw(t, "selector"),
+				Selector: rapid.SampledFrom(c27SelSelectors).Draw(t, "selector"),
 				Created:  rapid.SampledFrom([]int{0, 1, 1, 1, 2, 3}).Draw(t, "created"),
 			}
 			if rapid.IntRange(0, 3).Draw(t, "setsRefresh") > 0 {
@@ -184,7 +218,9 @@ func TestVerifC27SelectorSource(t *testing.T) {
 		build := func(rs []c27SelRes) []*calc.SelectorConfigEntry {
 			var es []*calc.SelectorConfigEntry
 			for _, r := range rs {
-				es = append(es, r.entry(t))
+				if r.scoped() { // daemon.go's start-up listing skips the others
+					es = append(es, r.entry(t))
+				}
 			}
 			return es
 		}
@@ -196,29 +232,80 @@ func TestVerifC27SelectorSource(t *testing.T) {
 				c27SelNames(res), c27SelShow(m1), c27SelResolve(t, m1), c27SelNames(order2), c27SelShow(m2), c27SelResolve(t, m2), describe())
 		}
 		// path 2: the real ConfigBatcher, one-shot in both orders
-		b1 := c27SelBatcher(t, labels, res, nil)
-		b2 := c27SelBatcher(t, labels, order2, nil)
-		// incremental: learn a prefix before in-sync, the rest after; delete one resource and add it back
-		cut := rapid.IntRange(0, len(order2)).Draw(t, "learnedBeforeInSync")
-		late := append([]c27SelRes(nil), order2[cut:]...)
-		victim := res[rapid.IntRange(0, len(res)-1).Draw(t, "deletedAndReAdded")]
-		late = append(late, c27SelRes{Name: victim.Name}, victim)
-		b3 := c27SelBatcher(t, labels, order2[:cut], late)
+		b1 := c27SelBatcher(t, labels, c27SelOps(res), nil)
+		b2 := c27SelBatcher(t, labels, c27SelOps(order2), nil)
+		// incremental: a running Felix that watched the resources being edited into their final
+		// form.  Earlier versions of some resources (other selector — another one, none, empty,
+		// unparsable — other values, other timestamp only via delete/re-create) and deletions
+		// arrive first, some before and some after in-sync; every resource's last update is its
+		// final version.
+		var earlyOps, lateOps []c27SelOp
+		editKinds := map[string]bool{}
+		for _, r := range order2 {
+			nOlder := rapid.SampledFrom([]int{0, 1, 1, 2}).Draw(t, "olderVersions")
+			for k := 0; k < nOlder; k++ {
+				old := r
+				switch rapid.IntRange(0, 3).Draw(t, "olderKind") {
+				case 0:
+					old.Selector = rapid.SampledFrom(c27SelSelectors).Draw(t, "olderSelector")
+				case 1:
+					old.Selector = "all()"
+					old.Refresh = rapid.IntRange(20, 25).Draw(t, "olderRefresh")
+				case 2:
+					old.Severity = "Debug"
+				default:
+					op := c27SelOp{Res: r, Delete: true}
+					if rapid.Bool().Draw(t, "olderBeforeInSync") {
+						earlyOps = append(earlyOps, op)
+					} else {
+						lateOps = append(lateOps, op)
+					}
+					editKinds["deleted-and-recreated"] = true
+					continue
+				}
+				if old.scoped() && !r.scoped() {
+					editKinds["selector-removed-or-broken"] = true
+				}
+				if !old.scoped() && r.scoped() {
+					editKinds["selector-added"] = true
+				}
+				if old.scoped() && r.scoped() && old.Selector != r.Selector {
+					editKinds["selector-changed"] = true
+				}
+				if rapid.Bool().Draw(t, "olderBeforeInSync") {
+					earlyOps = append(earlyOps, c27SelOp{Res: old})
+				} else {
+					lateOps = append(lateOps, c27SelOp{Res: old})
+				}
+			}
+			if rapid.IntRange(0, 2).Draw(t, "finalBeforeInSync") == 0 && nOlder == 0 {
+				earlyOps = append(earlyOps, c27SelOp{Res: r})
+			} else {
+				lateOps = append(lateOps, c27SelOp{Res: r})
+			}
+		}
+		// interleave the late updates of different resources, keeping each resource's own order
+		lateOps = c27SelInterleave(t, lateOps)
+		b3 := c27SelBatcher(t, labels, earlyOps, lateOps)
 		for i, b := range []map[string]string{b1, b2, b3} {
 			if !reflect.DeepEqual(b, m1) {
-				t.Fatalf("ConfigBatcher run %d (1,2: one-shot in two orders; 3: incremental with delete/re-add) produced per-selector source %s => %s, but the same resources give %s => %s through MergeSelectorConfigs\n%s",
-					i+1, c27SelShow(b), c27SelResolve(t, b), c27SelShow(m1), c27SelResolve(t, m1), describe())
+				t.Fatalf("ConfigBatcher run %d (1,2: one-shot in two orders; 3: a running Felix that watched the edits) produced per-selector source %s => %s, but the final resources give %s => %s through the start-up path (MergeSelectorConfigs)\n%s\nupdates before in-sync: %+v\nupdates after in-sync: %+v",
+					i+1, c27SelShow(b), c27SelResolve(t, b), c27SelShow(m1), c27SelResolve(t, m1), describe(), earlyOps, lateOps)
 			}
 		}
 
 		// evidence
 		var matching []c27SelRes
 		for _, r := range res {
-			if r.entry(t).Sel.Evaluate(labels) {
+			if r.scoped() && r.entry(t).Sel.Evaluate(labels) {
 				matching = append(matching, r)
 			}
 		}
 		cl := []string{fmt.Sprintf("matching-%d", min(len(matching), 3))}
+		for k := range editKinds {
+			cl = append(cl, "edit-"+k)
+		}
+		sort.Strings(cl)
 		tiedOldest := false
 		if len(matching) >= 2 {
 			oldest := c27SelTimes[matching[0].Created]
@@ -250,16 +337,43 @@ func TestVerifC27SelectorSource(t *testing.T) {
 			shape = append(shape, fmt.Sprintf("%s/%s/%d/%d%s%s", r.Name, r.Selector, r.Created, r.Refresh, r.Severity, r.Chain))
 		}
 		sort.Strings(shape)
-		rec.Case(tiedOldest, fmt.Sprintf("%v|%s", labels, strings.Join(shape, ";")), func() any {
+		rec.Case(tiedOldest || editKinds["selector-removed-or-broken"] || editKinds["selector-changed"], fmt.Sprintf("%v|%s", labels, strings.Join(shape, ";")), func() any {
 			return map[string]any{"labels": labels, "resources": res, "perSelectorSource": m1, "effective": c27SelResolve(t, m1)}
 		}, cl...)
 	})
 }
 
+var c27SelSelectors = []string{"all()", "all()", "all()", "rack == 'r1'", "rack in {'r1', 'r2'}", "has(gpu)", "!has(gpu)", "rack == 'r2'",
+	"all()", "has(gpu)", c27SelNone, c27SelEmpty, c27SelInvalid}
+
 func c27SelNames(rs []c27SelRes) []string {
 	var out []string
 	for _, r := range rs {
 		out = append(out, r.Name)
+	}
+	return out
+}
+
+// c27SelInterleave shuffles updates of different resources while keeping the relative order of
+// the updates of each resource.
+func c27SelInterleave(t *rapid.T, ops []c27SelOp) []c27SelOp {
+	byName := map[string][]c27SelOp{}
+	var names []string
+	for _, o := range ops {
+		if _, ok := byName[o.Res.Name]; !ok {
+			names = append(names, o.Res.Name)
+		}
+		byName[o.Res.Name] = append(byName[o.Res.Name], o)
+	}
+	var out []c27SelOp
+	for len(names) > 0 {
+		i := rapid.IntRange(0, len(names)-1).Draw(t, "nextResource")
+		n := names[i]
+		out = append(out, byName[n][0])
+		byName[n] = byName[n][1:]
+		if len(byName[n]) == 0 {
+			names = append(names[:i], names[i+1:]...)
+		}
 	}
 	return out
 }
